@@ -336,7 +336,9 @@ class PExec(vc.Exec):
         why, chosen = [], None
         idx = list(range(1, len(allops)))
         for size in range(len(idx) + 1):
-            for Sset in itertools.combinations(idx, size):
+            # the ops in S were in flight together (issued back to back without waiting): they may take effect in
+            # either order -- which of them overtakes the other is not C06's business (same-handle races: C03)
+            for Sset in (p for c in itertools.combinations(idx, size) for p in itertools.permutations(c)):
                 order = list(Sset) + [0] + [j for j in idx if j not in Sset]
                 bad, ref2, departed, moved = self._serial(order, results, lab, newobjs)
                 name = "S={%s}" % ",".join(vc.op_text(allops[j]) for j in Sset)
